@@ -57,6 +57,23 @@ CHECKS["C20"] = dict(category="fault_enumeration",
            "run_antismash pipeline keeps the real control flow. Exhaustive within those bounds.",
       note="Fault model: exceptions during conversion (statement's model); no process kill between open() and write(). Any exception counts as 'reported'/'refused'.",
       design="3/C20")
+CHECKS["C09"] = dict(category="exploration",
+      technique="exhaustive protein sub-range enumeration per generated gene (exons x strand x introns x codon_start x origin rotation) with Biopython extract+translate as the independent oracle",
+      text="For generated genes (1-4 exons, either strand, introns, codon_start 1-3 through CDSFeature.from_biopython, overlapping exons, every "
+           "rotation across the origin of a tight ring) every protein range [s,e) up to 40 residues (sampled above) is mapped to DNA and the "
+           "extracted, translated bases are compared with the slice of the gene's own Biopython translation; the same for prepeptide "
+           "leader/core/tail, domain/motif/PFAM features generated by hmmer helpers, and TTA codon markers.",
+      note="Trusted: Biopython extraction/translation. Two open known findings pinned by repository tests or Feature() validation "
+           "(prepeptide last section includes the stop codon; overlapping-exon sub-location with equal part ends refused).",
+      design="3/C09")
+CHECKS["C14"] = dict(category="exploration",
+      technique="bounded-exhaustive enumeration of domain strings over class representatives (length<=3/4) + Hypothesis template-mixed generators, validity predicates and a reference layout state machine",
+      text="All domain strings up to length 3 (thorough 4) over 20 class representatives, head/tail pair strings and every cut of every module "
+           "template are enumerated; random strings over the full 60-name alphabet with KS subtypes and mutated templates are sampled. "
+           "Partition/order/no-loss, per-module layout rules, completeness definition, JSON reload identity, merge preconditions/effects and "
+           "the real generate_domains pipeline on 2-4 genes are asserted.",
+      note="Trusted: classification table CLASSIFICATIONS as the alphabet; trans-AT taken as the code's definition (subtype or docking domain).",
+      design="3/C14")
 NOT_YET = {}
 
 def main():
